@@ -1,6 +1,7 @@
 package vc
 
 import (
+	"sort"
 	"fmt"
 	"go/token"
 	"go/types"
@@ -398,6 +399,17 @@ func (f *frame) execBinOp(x *ssa.BinOp, in string, st *State) {
 		}
 	case token.OR:
 		f.name(x, App("bvor_", a.T, b.T))
+		// disjoint bit ranges: when one operand is a multiple of 2^k and the other
+		// is below 2^k, OR is addition. Instantiated for the constant shift
+		// amounts that occur in this function (no quantifier, no bit-vectors).
+		if f.vals[x].T != "" {
+			for _, k := range shiftConsts(f.fn) {
+				p2 := BigLit(Pow2(k))
+				r := f.vals[x].T
+				vc.assume(in, Implies(And(Eq(App("mod", a.T, p2), "0"), App("<=", "0", b.T), App("<", b.T, p2)), Eq(r, App("+", a.T, b.T))))
+				vc.assume(in, Implies(And(Eq(App("mod", b.T, p2), "0"), App("<=", "0", a.T), App("<", a.T, p2)), Eq(r, App("+", a.T, b.T))))
+			}
+		}
 	case token.XOR:
 		f.name(x, App("bvxor_", a.T, b.T))
 	case token.AND_NOT:
@@ -633,4 +645,24 @@ func (f *frame) havocAll(st *State, in, why string) {
 	vc.assertHeapWF(st, nil)
 	// locals of the current frames that never escape are unaffected: handled
 	// by the caller through escape analysis (not modelled: conservative).
+}
+
+// shiftConsts lists the distinct constant left-shift amounts in fn (sorted).
+func shiftConsts(fn *ssa.Function) []int {
+	seen := map[int]bool{}
+	for _, b := range fn.Blocks {
+		for _, ins := range b.Instrs {
+			if bo, ok := ins.(*ssa.BinOp); ok && bo.Op == token.SHL {
+				if n, ok := constInt(bo.Y); ok && n > 0 && n < 64 {
+					seen[int(n)] = true
+				}
+			}
+		}
+	}
+	var out []int
+	for k := range seen {
+		out = append(out, k)
+	}
+	sort.Ints(out)
+	return out
 }
